@@ -40,6 +40,7 @@ inductive Tok where
   | word (w : Word) (noAlias : List String)   -- `noAlias`: alias names this token came out of
   | op (s : String)                           -- `;` `&&` `||` `(` `)` `;;` `|` `&`
   | here (k : Nat)                            -- `<<DELIM`, k-th here-document of the text
+  | rin (path : List Char)                    -- `<path`: standard input from a file
   | nl
   deriving Repr, Inhabited
 
@@ -50,6 +51,8 @@ inductive LMode where
   | hop                                       -- after `<<`, before the delimiter
   | hdelim (acc : List Char)
   | hbody (line : List Char)                  -- reading here-document contents
+  | rop                                       -- after `<`, before the pathname
+  | rpath (acc : List Char)                   -- the pathname of `<path` (literal characters only)
   deriving Repr, Inhabited
 
 structure LState where
@@ -66,6 +69,8 @@ structure LState where
 
 def isNameStart (c : Char) : Bool := c.isAlpha || c == '_'
 def isNameChar (c : Char) : Bool := c.isAlphanum || c == '_'
+/-- the characters of a redirection operand as the scripts write it (`/d1`, `r.txt`) -/
+def isPathChar (c : Char) : Bool := isNameChar c || c == '/' || c == '.'
 
 def LState.push (s : LState) (p : Part) : LState :=
   { s with cur := some (p :: s.cur.getD []) }
@@ -116,6 +121,13 @@ def stepMain (s : LState) (c : Char) (next : Option Char) : LState :=
   | .hdelim acc =>
     -- never reached with a name character (handled in `lexStep`)
     { s with mode := .hdelim acc }
+  | .rop =>
+    if c == ' ' || c == '\t' then s
+    else if isPathChar c then { s with mode := .rpath [c] }
+    else { s with bad := true, mode := .top }
+  | .rpath acc =>
+    -- never reached with a pathname character (handled in `lexStep`)
+    { s with mode := .rpath acc }
   | .hbody line =>
     if c == '\n' then
       match s.pend with
@@ -157,7 +169,10 @@ def stepMain (s : LState) (c : Char) (next : Option Char) : LState :=
       (if next == some '<' then
         let s := s.endWord
         { s with skip := true, mode := .hop }
-       else { s with bad := true })
+       else
+        -- `<path`: the operator delimits the word before it; the operand follows
+        let s := s.endWord
+        { s with mode := .rop })
     else if c == '>' || c == '`' then { s with bad := true }
     else s.push (.lit c false)
 
@@ -168,6 +183,9 @@ def LState.finishDelim (s : LState) (acc : List Char) : LState :=
   { s with toks := .here s.nhere :: s.toks, nhere := s.nhere + 1, pend := s.pend ++ [acc.reverse],
            mode := .top }
 
+def LState.finishPath (s : LState) (acc : List Char) : LState :=
+  { s with toks := .rin acc.reverse :: s.toks, mode := .top }
+
 def lexStep (s : LState) (c : Char) (next : Option Char) : LState :=
   if s.skip then { s with skip := false } else
   match s.mode with
@@ -175,6 +193,8 @@ def lexStep (s : LState) (c : Char) (next : Option Char) : LState :=
                   else stepMain (s.finishVar q acc) c next
   | .hdelim acc => if isNameChar c then { s with mode := .hdelim (c :: acc) }
                    else stepMain (s.finishDelim acc) c next
+  | .rpath acc => if isPathChar c then { s with mode := .rpath (c :: acc) }
+                  else stepMain (s.finishPath acc) c next
   | _ => stepMain s c next
 
 /-- the lexer is a left fold with one character of look-ahead -/
@@ -200,9 +220,10 @@ def lexAll (text : List Char) (eof : Bool) : Lexed :=
   let s := match s.mode with
     | .var q acc => s.finishVar q acc
     | .hdelim acc => s.finishDelim acc
+    | .rpath acc => s.finishPath acc
     | _ => s
   let open_ : Bool := match s.mode with
-    | .sq | .dq | .bs _ | .hop | .hbody _ => true
+    | .sq | .dq | .bs _ | .hop | .rop | .hbody _ => true
     | _ => false
   let s' := s.endWord
   let status : LexEnd :=
@@ -214,8 +235,15 @@ def lexAll (text : List Char) (eof : Bool) : Lexed :=
 
 /-! ### Commands -/
 
+/-- a redirection of standard input: a here-document (its contents) or `<path` -/
+inductive Rd where
+  | here (body : List Char)
+  | file (path : List Char)
+  deriving Repr, Inhabited, DecidableEq
+
 inductive Cmd where
-  | simple (ws : List Word) (here : Option (List Char))   -- words; contents of its here-document
+  | simple (ws : List Word) (here : Option (List Char))   -- words (`here`: always `none` from the parser)
+  | redir (rs : List Rd) (c : Cmd)             -- a command with its redirections, in the order written
   | ifc (cond thn els : List Cmd) (hasElse : Bool)
   | loop (untl : Bool) (cond body : List Cmd)
   | group (body : List Cmd)
@@ -296,12 +324,23 @@ def skipNl : List Tok → List Tok
   | .nl :: rest => skipNl rest
   | ts => ts
 
-/-- words (and here-document operators) of a simple command -/
+/-- words and redirections of a simple command (`simple_command.rs`: they may be mixed; the
+    redirections keep the order in which they are written) -/
 def simpleWords (bodies : List (List Char)) :
-    List Tok → List Word → Option (List Char) → (List Word × Option (List Char) × List Tok)
-  | .word w _ :: rest, ws, h => simpleWords bodies rest (ws ++ [w]) h
-  | .here k :: rest, ws, _ => simpleWords bodies rest ws (some (bodies.getD k []))
-  | ts, ws, h => (ws, h, ts)
+    List Tok → List Word → List Rd → (List Word × List Rd × List Tok)
+  | .word w _ :: rest, ws, rs => simpleWords bodies rest (ws ++ [w]) rs
+  | .here k :: rest, ws, rs => simpleWords bodies rest ws (rs ++ [.here (bodies.getD k [])])
+  | .rin p :: rest, ws, rs => simpleWords bodies rest ws (rs ++ [.file p])
+  | ts, ws, rs => (ws, rs, ts)
+
+/-- the redirections that follow a compound command (`Parser::redirections`) -/
+def takeRedirs (bodies : List (List Char)) : List Tok → List Rd → (List Rd × List Tok)
+  | .here k :: rest, rs => takeRedirs bodies rest (rs ++ [.here (bodies.getD k [])])
+  | .rin p :: rest, rs => takeRedirs bodies rest (rs ++ [.file p])
+  | ts, rs => (rs, ts)
+
+/-- a command with its redirections (none: the command itself) -/
+def withRedirs (rs : List Rd) (c : Cmd) : Cmd := if rs.isEmpty then c else .redir rs c
 
 /-- an open parenthesis token: (immediately preceded by a word, immediately followed by `(`) -/
 def openTok : Tok → Option (Bool × Bool)
@@ -337,6 +376,7 @@ def skipArray : List Tok → PR Unit
 
 def isCompound : Cmd → Bool
   | .ifc .. | .loop .. | .group .. | .subsh .. => true
+  | .redir _ c => isCompound c
   | _ => false
 
 /-- can this token start a command (`and_or_list` returns `Some`)? -/
@@ -344,6 +384,7 @@ def startsCmd (t : Tok) : Bool :=
   match t with
   | .word _ _ => !isClauseDelim t
   | .here _ => true
+  | .rin _ => true
   | t => (openTok t).isSome
 
 /-- after `&&` / `||` (`and_or.rs`): newlines are skipped before the next command, also the newlines
@@ -355,6 +396,20 @@ def skipNlAlias (cfg : PCfg) : Nat → List Tok → List Tok
     | .nl :: rest => skipNlAlias cfg n (.nl :: rest)
     | ts' => ts'
 
+/-- `Parser::full_compound_command`: the redirections that follow the compound command; in portable
+    mode a clause-delimiting reserved word may not directly follow a compound command that does not
+    end with a reserved word (a subshell, or one with redirections) -/
+def fullCompound (cfg : PCfg) (isSub : Bool) : PR Cmd → PR Cmd
+  | .ok c r =>
+    match (takeRedirs cfg.bodies r []).2 with
+    | t2 :: _ =>
+      if cfg.portable && (isSub || !(takeRedirs cfg.bodies r []).1.isEmpty)
+         && (tokKeyword t2).isSome && isClauseDelim t2 then .err
+      else .ok (withRedirs (takeRedirs cfg.bodies r []).1 c) (takeRedirs cfg.bodies r []).2
+    | [] => .ok (withRedirs (takeRedirs cfg.bodies r []).1 c) (takeRedirs cfg.bodies r []).2
+  | .inc => .inc
+  | .err => .err
+
 mutual
   /-- `Parser::command` (simple or compound) at a token that has been alias-substituted -/
   def pCommand (cfg : PCfg) : Nat → List Tok → PR Cmd
@@ -364,10 +419,11 @@ mutual
       | [] => if cfg.eof then .err else .inc
       | t :: rest =>
         match tokKeyword t with
-        | some "if" => pIf cfg n rest
-        | some "while" => pLoop cfg n false rest
-        | some "until" => pLoop cfg n true rest
+        | some "if" => fullCompound cfg false (pIf cfg n rest)
+        | some "while" => fullCompound cfg false (pLoop cfg n false rest)
+        | some "until" => fullCompound cfg false (pLoop cfg n true rest)
         | some "{" =>
+          fullCompound cfg false
           (match pCList cfg n rest with
            | .ok body r =>
              (match r with
@@ -391,24 +447,17 @@ mutual
           | some (_, adjNext) =>
             -- `Parser::subshell`: in portable mode `((` is rejected
             if cfg.portable && adjNext then .err else
-            (match pSub cfg n rest with
-             | .ok c r =>
-               -- `full_compound_command`: a subshell does not end with a reserved word, so in
-               -- portable mode a clause-delimiting reserved word may not follow it directly
-               (match r with
-                | t2 :: _ => if cfg.portable && (tokKeyword t2).isSome && isClauseDelim t2 then .err
-                             else .ok c r
-                | [] => .ok c r)
-             | .inc => .inc
-             | .err => .err)
+            -- `full_compound_command`: a subshell does not end with a reserved word, so in
+            -- portable mode a clause-delimiting reserved word may not follow it directly
+            fullCompound cfg true (pSub cfg n rest)
           | none =>
           match t with
-          | .word _ _ | .here _ =>
-            let (ws, h, r) := simpleWords cfg.bodies (t :: rest) [] none
+          | .word _ _ | .here _ | .rin _ =>
+            let (ws, h, r) := simpleWords cfg.bodies (t :: rest) [] []
             -- `simple_command`: a command name ending with `:` is rejected in portable mode
             if cfg.portable && (match t with | .word w _ => endsWithColon w | _ => false) then .err else
             (match ws, h, r with
-             | [w], none, t2 :: r' =>
+             | [w], [], t2 :: r' =>
                (match openTok t2 with
                 | some (adjWord, _) =>
                   if adjWord && endsWithEq w then
@@ -428,8 +477,8 @@ mutual
                         | .inc => .inc
                         | .err => .err)
                      | _ => .err)
-                | none => .ok (.simple ws h) r)
-             | _, _, _ => .ok (.simple ws h) r)
+                | none => .ok (.simple ws none) r)
+             | _, _, _ => .ok (withRedirs h (.simple ws none)) r)
           | _ => .err
 
   def pSub (cfg : PCfg) : Nat → List Tok → PR Cmd
